@@ -175,6 +175,17 @@ def run(report: Report, tier, seed):
     report.bounded.append(Bounded(function="pyteal.compileTeal on generated programs", contract="no non-PyTeal exception",
                                   bound=f"{len(specs)} generated programs (seed {seed})", cases=len(specs),
                                   distinct_nontrivial=len({r['key'] for r in sw if r['key']}), failures=len(rc)))
+    # constants: template values next to literals, with and without assembled constants (the constant assembler compares and sorts values)
+    from . import c12 as _c12
+    tj = _c12.template_jobs(tier)
+    with ProcessPoolExecutor(max_workers=16) as ex:
+        tr = list(ex.map(_c12.template_case, tj, chunksize=4))
+    tcr = [r for r in tr if any(p.startswith("exception ") and p.split()[1].rstrip(":") not in e2e.PYTEAL_ERRORS for p in r["problems"])]
+    report.bounded.append(Bounded(function="pyteal.compileTeal(assembleConstants=True/False) with template constants next to literals", contract="no non-PyTeal exception",
+                                  bound=f"{len(tj)} (number of literals, template frequency, literal frequency, version) settings", cases=len(tr), distinct_nontrivial=len(tr), failures=len(tcr)))
+    for b in tcr[:1]:
+        p0 = next(p for p in b["problems"] if p.startswith("exception "))
+        report.violation(Violation(key=f"crash:{p0.split()[1].rstrip(':')}:template-constants", what=f"template constants {b['job']}: {p0}"[:300], replay={"kind": "template", "job": b["job"]}, confirmed_native=True))
     # long programs (resource bound)
     probes = [(k, n, 6) for k in ("straight", "nested-if", "nested-add") for n in ([100, 200, 400, 800] if tier == "quick" else [100, 200, 400, 800, 1600, 3200])]
     with ProcessPoolExecutor(max_workers=8) as ex:
@@ -240,6 +251,11 @@ def replay(data):
         c, f = ir_native.check_flatten(3)
         print(f[:1])
         return 1 if f else 0
+    if r["kind"] == "template":
+        from . import c12 as _c12
+        out = _c12.template_case(tuple(r["job"]))
+        print(out["problems"][:2])
+        return 1 if any(p.startswith("exception ") for p in out["problems"]) else 0
     if r["kind"] == "shared":
         from . import shared_objs
         out = shared_objs.case(tuple(r["job"]))
